@@ -261,18 +261,34 @@ def rollbackAndRenderRej : Nat → St → Nat → List (Bytes × Bytes) → Exce
             rollbackAndRenderRej fuel st' idx (rejs ++ [(makeRejName s.target, writeRej s.fp s.report)])
           else rollbackAndRenderRej fuel st' idx rejs
 
+/-- the operation on the path `k`, issued on the world `w`, fails with the natural `ENOTDIR`: something on
+the way to `k` is a regular file, and the failure is not the injected fault (which `World.op` raises on `w`
+exactly when `w.faultAt == some w.trace.length`) -/
+def World.notDir (w : World) (k : Key) : Bool :=
+  w.fs.fileOnPath k && !(w.faultAt == some w.trace.length)
+
+/-- `World.op` as `save_rej_files` reads the results of its `remove_file` and `File::create` on the path `k`:
+`ENOTDIR` is treated like `NotFound`.  The operation is issued all the same (same trace, same count); any
+other failure, and the injected fault, stay failures. -/
+def World.opRej (w : World) (o : Op) (k : Key) : OpRes :=
+  match w.op o with
+  | .failed w' => if w.notDir k then .notFound w' else .failed w'
+  | .ok w' => .ok w'
+  | .notFound w' => .notFound w'
+
 /-- `save_rej_files`: unlink an old reject file (it may be a hard link), create the new one — skipped
-if its directory does not exist — and write it -/
+if its directory does not exist, or if something on the way to it is a regular file (`ENOTDIR`, for example
+another reject file written a moment ago: `opRej`) — and write it -/
 def saveRejFiles (w : World) : List (Bytes × Bytes) → WR World
   | [] => .ok w
   | (name, content) :: rest =>
     match safeKey name with
     | none => .error (.err, w)
     | some k =>
-      match w.op (.removeFile k) with
+      match w.opRej (.removeFile k) k with
       | .failed w0 => .error (.err, w0)
       | .ok w0 | .notFound w0 =>
-        match w0.op (.createFile k) with
+        match w0.opRej (.createFile k) k with
         | .notFound w' => saveRejFiles w' rest
         | .failed w' => .error (.err, w')
         | .ok w' =>
